@@ -97,10 +97,16 @@ def r1_filter_dominance(ctx):
         names = [e[1].rsplit('::', 1)[-1] for e in calls]
         ok = ok and set(names[:-1]) == set(gens) and len(names) == 6 and names[-1] == 'remove_invalid_moves'
         # same list, same board, same colour everywhere; nothing touches the list afterwards
-        lists = {e[2][0] for e in calls}
+        # one list flows through all six calls (also when the first stage lives in a helper that returns the list): each call receives the
+        # list exactly as the previous call left it
+        chain = True
+        for prev, cur in zip(calls, calls[1:]):
+            pre = dict(cur[6]).get(0) if len(cur) > 6 else None
+            same_lv = cur[2][0] == prev[2][0]
+            chain = chain and (pre == ('hv', prev[3]) or (pre is None and same_lv))
         boards = {show(e[2][1]) for e in calls}
         cols = {e[2][2] for e in calls}
-        ok = ok and len(lists) == 1 and cols == {('p', 2)} and boards == {'&*arg1'}
+        ok = ok and chain and cols == {('p', 2)} and boards == {'&*arg1'}
         after = o.events[o.events.index(calls[-1]) + 1:] if calls else []
         ok = ok and not [e for e in after if e[0] == 'call' and ('push' in e[1] or 'append' in e[1] or 'insert' in e[1])]
     ctx.ob(rule, name, 'five generators, then remove_invalid_moves last, all on the same list/board/colour', ok,
